@@ -36,9 +36,11 @@ def fresh(*parts):
 _built = {}
 
 
-def build_harness(features=(), variant="native", nightly=False):
-    """cargo build of the harness (path dependency => sonic-rs is rebuilt from /repo's tree)."""
-    keyv = (tuple(features), variant)
+def build_harness(features=(), variant="native", nightly=False, profile="release"):
+    """cargo build of the harness (path dependency => sonic-rs is rebuilt from /repo's tree).
+    profile "release" is the hardened one (overflow checks, debug assertions and std's unsafe-precondition checks on);
+    profile "fast" is a plain optimised build (all of them off): the code paths under cfg(not(debug_assertions)) only exist there."""
+    keyv = (tuple(features), variant, profile)
     if keyv in _built:
         return _built[keyv]
     env = dict(os.environ)
@@ -54,7 +56,7 @@ def build_harness(features=(), variant="native", nightly=False):
     env["CARGO_ENCODED_RUSTFLAGS"] = "\x1f".join(flags)
     if features:
         tdir += "-" + "-".join(sorted(features))
-    cmd = ["cargo", "build", "--release", "--offline", "--target-dir", tdir]
+    cmd = ["cargo", "build", "--offline", "--target-dir", tdir] + (["--release"] if profile == "release" else ["--profile", profile])
     if features:
         cmd += ["--features", ",".join(features)]
     t0 = time.time()
@@ -62,8 +64,8 @@ def build_harness(features=(), variant="native", nightly=False):
     if p.returncode != 0:
         sys.stderr.write(p.stdout[-6000:])
         raise ToolError("harness build failed")
-    exe = os.path.join(HARNESS, tdir, "release", "vh")
-    log("built harness %s %s in %.1fs" % (variant, list(features), time.time() - t0))
+    exe = os.path.join(HARNESS, tdir, profile, "vh")
+    log("built harness %s %s %s in %.1fs" % (variant, list(features), "" if profile == "release" else profile, time.time() - t0))
     _built[keyv] = exe
     return exe
 
